@@ -467,7 +467,7 @@ def _strategy_case():
         c = env["currencies"][cur]
         side = draw(st.sampled_from(["BACK", "LAY"]))
         out = {"ladder": lad, "type": typ, "side": side, "client": "sim", "currency": cur,
-               "mbv": draw(st.booleans())}
+               "mbv": draw(st.booleans()), "routed": draw(st.integers(0, 3)) == 0}
         if lad == "LINE_RANGE":
             line = draw(st.sampled_from(LINES))
             out["line"] = list(line)
@@ -510,7 +510,9 @@ def _stepper():
         m = world.default_market(2 + j, 2, ladder={"type": "LINE_RANGE", "min": line[0], "max": line[1], "interval": line[2]},
                                  betting_type="LINE", market_type="LINE", bsp_market=False)
         markets.append(m)
-    sc = {"markets": markets, "clients": [{"tx_limit": None}],
+    # (client 1 refuses everything - transaction limit below zero - and keeps the GBP rules: an order is sometimes
+    #  offered to it first and, once refused, routed to client 0, whose account's rules then apply)
+    sc = {"markets": markets, "clients": [{"tx_limit": None}, {"tx_limit": -1}],
           "strategies": [{"name": "v", "max_order_exposure": None, "max_selection_exposure": None,
                           "max_trade_count": 10**9, "max_live_trade_count": 10**9}]}
     s = simlab.Stepper(sc)
@@ -538,11 +540,18 @@ def check_full_path(case):
     client.account_details = env["clients"][("sim", case["currency"], case["mbv"])].account_details
     client.min_bet_validation = case["mbv"]
     order = make_order(case)
+    order.client = None  # a fresh order: the client is bound by the placement itself
     order.trade.market_id = market.market_id
     order.lookup = order.market_id, order.selection_id, order.handicap
     order.trade.strategy = s.lab.strategies[0]
     n0 = len(s.lab.packages)
     exp, reason = expected_valid(case)
+    if case.get("routed"):
+        other = s.lab.clients[1]
+        other.min_bet_validation = True
+        if market.place_order(order, client=other) is not False or order.id in market.blotter:
+            raise Violation("validation.full-path.accepted-invalid", (case["ladder"], case["type"], "transaction-limit"),
+                            "the client with an exhausted transaction limit accepted the order", case)
     res = market.place_order(order, client=client)
     new = s.lab.packages[n0:]
     in_pkgs = sum(1 for p in new for o in p._orders if o is order)
